@@ -3,6 +3,9 @@
 //!   pv-harness-bld gen <thrift|pb> <single|split|workspace|workspace-split> <out> [flags] -- <idl>...
 //!       flags: --keep  --no-change-case  --no-ignore-unused  --include <dir>  --dump <file>  --dump-derive <file>
 //!              --dedup <Name,Name>   Builder::dedup: structurally equal items with one of these names are emitted once per module
+//!              --touch <idl file>:<Name,Name>   (repeatable) Builder::touch; only looked at while ignore_unused is on
+//!              --special-namings <A,B>   Builder::special_namings      --common-crate-name <name>   Builder::common_crate_name
+//!              --again <out2>   build a second time IN THE SAME PROCESS (fresh Builder, same options) into <out2>
 //!       --dump-derive writes the input of AutoDerivePlugin as the plugins see it (the resolved rir, not the IDL):
 //!         ORDER <def ids of Context.codegen_items, comma separated>
 //!         ITEM <def id> <emitted 0|1> <Display of rust_name> <M:ty,ty | E:ty,ty/ty | N:ty | S | C | O>
@@ -231,6 +234,10 @@ fn gen(a: &[String]) {
     let mut dump: Option<PathBuf> = None;
     let mut dump_derive: Option<PathBuf> = None;
     let mut dedup: Vec<faststr::FastStr> = vec![];
+    let mut touches: Vec<(PathBuf, Vec<String>)> = vec![];
+    let mut special_namings: Vec<faststr::FastStr> = vec![];
+    let mut common_crate_name: Option<String> = None;
+    let mut again: Option<PathBuf> = None;
     let mut files: Vec<PathBuf> = vec![];
     let mut i = 3;
     let mut in_files = false;
@@ -254,6 +261,23 @@ fn gen(a: &[String]) {
                 "--dedup" => {
                     i += 1;
                     dedup.extend(a[i].split(',').filter(|x| !x.is_empty()).map(|x| faststr::FastStr::new(x)));
+                }
+                "--touch" => {
+                    i += 1;
+                    let (f, names) = a[i].rsplit_once(':').unwrap_or_else(|| usage());
+                    touches.push((PathBuf::from(f), names.split(',').filter(|x| !x.is_empty()).map(|x| x.to_string()).collect()));
+                }
+                "--special-namings" => {
+                    i += 1;
+                    special_namings.extend(a[i].split(',').filter(|x| !x.is_empty()).map(|x| faststr::FastStr::new(x)));
+                }
+                "--common-crate-name" => {
+                    i += 1;
+                    common_crate_name = Some(a[i].clone());
+                }
+                "--again" => {
+                    i += 1;
+                    again = Some(PathBuf::from(&a[i]));
                 }
                 "--dump-derive" => {
                     i += 1;
@@ -288,48 +312,48 @@ fn gen(a: &[String]) {
         }
     }));
     let split = mode == "split" || mode == "workspace-split";
-    let output = if mode.starts_with("workspace") {
-        Output::Workspace(out.clone())
-    } else {
-        Output::File(out.clone())
-    };
-    let services: Vec<IdlService> = files.iter().map(|p| IdlService::from_path(p.clone())).collect();
     let keep_files: Vec<PathBuf> = if keep { files.clone() } else { vec![] };
     let workspace = mode.starts_with("workspace");
-    let r = catch_unwind(AssertUnwindSafe(|| match kind.as_str() {
-        "thrift" => {
-            let mut b = Builder::thrift()
-                .include_dirs(includes.clone())
-                .ignore_unused(ignore_unused)
-                .change_case(change_case)
-                .split_generated_files(split)
-                .keep_unknown_fields(keep_files.clone())
-                .dedup(dedup.clone());
-            if let Some(p) = dump.clone() {
-                b = b.plugin(DumpPlugin { path: p, workspace });
-            }
-            if let Some(p) = dump_derive.clone() {
-                b = b.plugin(DeriveDumpPlugin { path: p });
-            }
-            b.compile_with_config(services, output)
+    // one build with a fresh Builder; the dump plugins are attached to the first build only
+    let run_once = |out: PathBuf, first: bool| {
+        let output = if workspace { Output::Workspace(out) } else { Output::File(out) };
+        let services: Vec<IdlService> = files.iter().map(|p| IdlService::from_path(p.clone())).collect();
+        macro_rules! configure {
+            ($b:expr) => {{
+                let mut b = $b
+                    .include_dirs(includes.clone())
+                    .ignore_unused(ignore_unused)
+                    .change_case(change_case)
+                    .split_generated_files(split)
+                    .keep_unknown_fields(keep_files.clone())
+                    .dedup(dedup.clone())
+                    .special_namings(special_namings.clone())
+                    .touch(touches.clone());
+                if let Some(n) = common_crate_name.clone() {
+                    b = b.common_crate_name(n.into());
+                }
+                if first {
+                    if let Some(p) = dump.clone() {
+                        b = b.plugin(DumpPlugin { path: p, workspace });
+                    }
+                    if let Some(p) = dump_derive.clone() {
+                        b = b.plugin(DeriveDumpPlugin { path: p });
+                    }
+                }
+                b.compile_with_config(services, output)
+            }};
         }
-        "pb" => {
-            let mut b = Builder::protobuf()
-                .include_dirs(includes.clone())
-                .ignore_unused(ignore_unused)
-                .change_case(change_case)
-                .split_generated_files(split)
-                .keep_unknown_fields(keep_files.clone())
-                .dedup(dedup.clone());
-            if let Some(p) = dump.clone() {
-                b = b.plugin(DumpPlugin { path: p, workspace });
-            }
-            if let Some(p) = dump_derive.clone() {
-                b = b.plugin(DeriveDumpPlugin { path: p });
-            }
-            b.compile_with_config(services, output)
+        match kind.as_str() {
+            "thrift" => configure!(Builder::thrift()),
+            "pb" => configure!(Builder::protobuf()),
+            _ => usage(),
         }
-        _ => usage(),
+    };
+    let r = catch_unwind(AssertUnwindSafe(|| {
+        run_once(out.clone(), true);
+        if let Some(o2) = again.clone() {
+            run_once(o2, false);
+        }
     }));
     let stdout = std::io::stdout();
     let mut o = stdout.lock();
